@@ -2,7 +2,7 @@
 //! goes through gdsl's public API only.
 
 use crate::model::{Closure, SKind, SMode, SearchSpec};
-use crate::keys::{kin, kout};
+use crate::keys::{kin, kout, SimKey};
 use crate::payload::{EVal, NVal};
 use std::io::{Read, Write};
 
@@ -346,7 +346,7 @@ macro_rules! common_node_items {
         fn edge_sort(v: &[ET<Self::Node>]) -> Vec<(usize, usize, u64)> {
             #[allow(unused_imports)]
             use crate::flavour::{ViaNoOrd, ViaOrd};
-            let es: Vec<gdsl::$m::Edge<usize, NVal, EVal>> =
+            let es: Vec<gdsl::$m::Edge<SimKey, NVal, EVal>> =
                 v.iter().map(|a| gdsl::$m::Edge(a.0.clone(), a.1.clone(), a.2.clone())).collect();
             match (&&crate::flavour::OrdProbe(&es[..])).order_report().1 {
                 Some(idx) => idx.iter().map(|i| (kout(*es[*i].0.key()), kout(*es[*i].1.key()), (es[*i].2).0)).collect(),
@@ -677,8 +677,8 @@ macro_rules! directed_flavour {
         pub struct $ty;
         mod $m {
             use super::*;
-            pub type N = gdsl::$m::Node<usize, NVal, EVal>;
-            pub type E = gdsl::$m::Edge<usize, NVal, EVal>;
+            pub type N = gdsl::$m::Node<SimKey, NVal, EVal>;
+            pub type E = gdsl::$m::Edge<SimKey, NVal, EVal>;
 
             macro_rules! three {
                 ($b:expr, $spec:ident, $tk:ident, $meth:ident) => {{
@@ -708,7 +708,7 @@ macro_rules! directed_flavour {
             }
 
             pub fn go<'a>(root: &'a N, spec: &SearchSpec, meth: Meth<'a, E>) -> SearchOut<N> {
-                let tk: Option<usize> = spec.target.map(kin);
+                let tk: Option<SimKey> = spec.target.map(kin);
                 match spec.kind {
                     SKind::Bfs => three!(root.bfs(), spec, tk, meth),
                     SKind::Dfs => three!(root.dfs(), spec, tk, meth),
@@ -744,7 +744,7 @@ macro_rules! directed_flavour {
             const SYNC: bool = $sync;
             elsewhere_impl!($m, $sync);
             type Node = $m::N;
-            type Graph = gdsl::$m::Graph<usize, NVal, EVal>;
+            type Graph = gdsl::$m::Graph<SimKey, NVal, EVal>;
             type AltGraph = gdsl::$m::Graph<PortKey, u8, u8>;
 
             common_node_items!($m);
@@ -807,7 +807,7 @@ macro_rules! directed_flavour {
                             let _ = it.size_hint();
                         } else {
                             // the body, as adaptor chains call it; `false` cuts the walk by unwinding
-                            let mut body = |gdsl::$m::Edge(a, b, e): gdsl::$m::Edge<usize, NVal, EVal>| {
+                            let mut body = |gdsl::$m::Edge(a, b, e): gdsl::$m::Edge<SimKey, NVal, EVal>| {
                                 if !f(a, b, e) {
                                     std::panic::resume_unwind(Box::new(crate::locks::SimAbort("cut".into())));
                                 }
@@ -874,7 +874,7 @@ macro_rules! directed_flavour {
             }
 
             fn path_info(root: &Self::Node, spec: &SearchSpec) -> Option<String> {
-                let tk: Option<usize> = spec.target.map(kin);
+                let tk: Option<SimKey> = spec.target.map(kin);
                 macro_rules! pi {
                     ($b:expr) => {{
                         let mut b = $b;
@@ -936,8 +936,8 @@ macro_rules! undirected_flavour {
         pub struct $ty;
         mod $m {
             use super::*;
-            pub type N = gdsl::$m::Node<usize, NVal, EVal>;
-            pub type E = gdsl::$m::Edge<usize, NVal, EVal>;
+            pub type N = gdsl::$m::Node<SimKey, NVal, EVal>;
+            pub type E = gdsl::$m::Edge<SimKey, NVal, EVal>;
 
             macro_rules! three {
                 ($b:expr, $spec:ident, $tk:ident, $meth:ident) => {{
@@ -966,7 +966,7 @@ macro_rules! undirected_flavour {
             pub fn go<'a>(
                 root: &'a N,
                 spec: &SearchSpec,
-                tk: &'a Option<usize>,
+                tk: &'a Option<SimKey>,
                 meth: Meth<'a, E>,
             ) -> SearchOut<N> {
                 match spec.kind {
@@ -1001,7 +1001,7 @@ macro_rules! undirected_flavour {
             const SYNC: bool = $sync;
             elsewhere_impl!($m, $sync);
             type Node = $m::N;
-            type Graph = gdsl::$m::Graph<usize, NVal, EVal>;
+            type Graph = gdsl::$m::Graph<SimKey, NVal, EVal>;
             type AltGraph = gdsl::$m::Graph<PortKey, u8, u8>;
 
             common_node_items!($m);
@@ -1064,7 +1064,7 @@ macro_rules! undirected_flavour {
                             let _ = it.size_hint();
                         } else {
                             // the body, as adaptor chains call it; `false` cuts the walk by unwinding
-                            let mut body = |gdsl::$m::Edge(a, b, e): gdsl::$m::Edge<usize, NVal, EVal>| {
+                            let mut body = |gdsl::$m::Edge(a, b, e): gdsl::$m::Edge<SimKey, NVal, EVal>| {
                                 if !f(a, b, e) {
                                     std::panic::resume_unwind(Box::new(crate::locks::SimAbort("cut".into())));
                                 }
@@ -1114,7 +1114,7 @@ macro_rules! undirected_flavour {
                 }
             }
             fn search(root: &Self::Node, spec: &SearchSpec, cb: Cb<Self::Node>) -> SearchOut<Self::Node> {
-                let tk: Option<usize> = spec.target.map(kin);
+                let tk: Option<SimKey> = spec.target.map(kin);
                 match spec.closure {
                     Closure::None => $m::go(root, spec, &tk, Meth::None),
                     Closure::ForEach => {
@@ -1131,7 +1131,7 @@ macro_rules! undirected_flavour {
             }
 
             fn path_info(root: &Self::Node, spec: &SearchSpec) -> Option<String> {
-                let tk: Option<usize> = spec.target.map(kin);
+                let tk: Option<SimKey> = spec.target.map(kin);
                 macro_rules! pi {
                     ($b:expr) => {{
                         let mut b = $b;
